@@ -48,6 +48,8 @@ class ClassPlan:
         self.dbc = True
         self.py_setattr = False
         self.py_getattribute = False
+        self.ext = {}  # type: Dict[str, str]   # property name -> "setter" | "deleter" | "both" (accessors added to an inherited property)
+        self.ext_owner = {}  # type: Dict[str, str]
         self.src = ""
 
 
@@ -139,6 +141,17 @@ def render_class(plan: ClassPlan, plans: Dict[str, ClassPlan], rng) -> str:
             body += ["@staticmethod", "def {}(q=0):".format(name), "    return HUB.body({!r}, {{}})".format(mid)]
         elif kind == "class":
             body += ["@classmethod", "def {}(cls, q=0):".format(name), "    return HUB.body({!r}, {{'cls': cls}})".format(mid)]
+        elif kind == "prop_ext":
+            # new accessors derived from the (already wrapped) property of an ancestor
+            ext = plan.ext[name]
+            first = True
+            if ext in ("setter", "both"):
+                body += ["@{}.{}.setter".format(plan.ext_owner[name], name), "def {}(self, value):".format(name),
+                         "    HUB.body({!r}, {{'self': self}})".format(mid + "_set")]
+                first = False
+            if ext in ("deleter", "both"):
+                body += ["@{}.deleter".format(name if not first else "{}.{}".format(plan.ext_owner[name], name)), "def {}(self):".format(name),
+                         "    HUB.body({!r}, {{'self': self}})".format(mid + "_del")]
         elif kind == "prop":
             body += ["@property", "def {}(self):".format(name), "    return HUB.body({!r}, {{'self': self}})".format(mid + "_get"),
                      "@{}.setter".format(name), "def {}(self, value):".format(name),
@@ -184,6 +197,18 @@ def make_program(rng, ids: gen.Ids, depth: int, dbc: bool, flavour: str) -> Tupl
         for name in chosen:
             kind = {"prop": "prop", "cm": "class", "sm": "static"}.get(name, "method")
             plan.members[name] = kind
+        if level > 0 and "prop" not in plan.members and plan.flavour == "plain" and rng.random() < 0.4:
+            anc = prev
+            owner = None
+            while anc is not None:
+                if plans[anc].members.get("prop") in ("prop", "prop_ext"):
+                    owner = anc
+                    break
+                anc = plans[anc].base
+            if owner is not None and plans[order[0]].flavour not in ("frozen",):
+                plan.members["prop"] = "prop_ext"
+                plan.ext["prop"] = rng.choice(("setter", "deleter", "both"))
+                plan.ext_owner["prop"] = owner
         plans[plan.name] = plan
         order.append(plan.name)
         prev = plan.name
@@ -258,17 +283,33 @@ def operations(oracle: Oracle, cls: str) -> List[Dict[str, Any]]:
     chain = oracle.chain(cls)
     flavour = oracle.plans[chain[-1]].flavour
     members = {}
+    acc_owner = {}  # type: Dict[str, Dict[str, str]]
     for c in reversed(chain):
-        members.update({m: (c, k) for m, k in oracle.plans[c].members.items()})
+        for m, k in oracle.plans[c].members.items():
+            if k == "prop":
+                acc_owner[m] = {"get": c, "set": c, "del": c}
+                members[m] = (c, "prop")
+            elif k == "prop_ext":
+                ext = oracle.plans[c].ext[m]
+                cur = dict(acc_owner.get(m, {}))
+                if ext in ("setter", "both"):
+                    cur["set"] = c
+                if ext in ("deleter", "both"):
+                    cur["del"] = c
+                acc_owner[m] = cur
+                members[m] = (c, "prop")
+            else:
+                members[m] = (c, k)
     for name, (owner, kind) in members.items():
         if kind == "prop":
-            ops.append({"op": "pget", "name": name, "owner": owner})
-            # the accessor functions called directly (not through attribute access)
-            for direct in ("pget_direct", "pset_direct", "pdel_direct"):
-                ops.append({"op": direct, "name": name, "owner": owner})
+            own = acc_owner[name]
+            ops.append({"op": "pget", "name": name, "owner": own["get"]})
+            ops.append({"op": "pget_direct", "name": name, "owner": own["get"]})
+            ops.append({"op": "pset_direct", "name": name, "owner": own["set"]})
+            ops.append({"op": "pdel_direct", "name": name, "owner": own["del"]})
             if flavour != "frozen":
-                ops.append({"op": "pset", "name": name, "owner": owner})
-                ops.append({"op": "pdel", "name": name, "owner": owner})
+                ops.append({"op": "pset", "name": name, "owner": own["set"]})
+                ops.append({"op": "pdel", "name": name, "owner": own["del"]})
         elif kind in ("static", "class"):
             ops.append({"op": "call", "name": name, "owner": owner, "kind": kind})
         else:
